@@ -1,0 +1,10 @@
+//go:build verif
+
+package vaxis
+
+// Hooks for the verification harness in /verif.  Add-only, guarded by the
+// build tag "verif": they re-export unexported functions and expose read-only
+// snapshots; they never replace a call in existing code.
+
+// VerifAsIndex re-exports Color.asIndex
+func VerifAsIndex(c Color) Color { return c.asIndex() }
